@@ -48,7 +48,7 @@ Fixpoint ycompletes (fuel : nat) (md : hmode) (y : ysim) (stack : list item) : b
       | [] => true
       | IDlv et l ser :: r => ycompletes f md (log_dlv et l ser y) (map IAct (lbody M l) ++ r)
       | IAct (YFire et) :: r => ycompletes f md (bump_ser y) (fire_items et y ++ r)
-      | IAct a :: r => let '(y1, failed) := ystep nint md y a in
+      | IAct a :: r => let '(y1, failed) := ystep nint M md y a in
                        if failed then true else ycompletes f md y1 r
       end
   end.
@@ -77,13 +77,16 @@ Proof.
 Qed.
 
 Lemma ystep_keeps md y a :
-  y_ser (fst (ystep nint md y a)) = y_ser y /\ y_dlv (fst (ystep nint md y a)) = y_dlv y.
+  y_ser (fst (ystep nint M md y a)) = y_ser y /\ y_dlv (fst (ystep nint M md y a)) = y_dlv y.
 Proof.
   destruct a; cbn [ystep]; try (split; reflexivity).
   - destruct (exec_action md (y_sim y) a); split; reflexivity.
   - unfold draw. destruct (nth st (y_str y) []); split; reflexivity.
   - unfold draw. destruct (nth st (y_str y) []); split; reflexivity.
   - unfold draw. destruct (nth st (y_str y) []); split; reflexivity.
+  - unfold sched_pre. destruct (memn j (y_pdone y)); [split; reflexivity|].
+    destruct (nth_error (ym_pre M) j) as [[[tm prio] h]|]; [|split; reflexivity].
+    destruct (nth_error (y_pre y) j); split; reflexivity.
 Qed.
 
 Lemma notified_app ser a b : notified ser (a ++ b) = notified ser b ++ notified ser a.
@@ -105,12 +108,12 @@ Proof.
     { exists []. split; auto. intros ser _. split; auto. try (exists 0%nat; reflexivity). }
     inversion OK as [|? ? Hit Hr]; subst.
     destruct it as [a|et l s].
-    + destruct a as [b|st lo hi mult prio h|sid st lo hi|sid st|et|et l|et l];
+    + destruct a as [b|st lo hi mult prio h|sid st lo hi|sid st|et|et l|et l|j];
       try (
         match goal with
-        | |- context [ystep nint md y ?a] =>
+        | |- context [ystep nint M md y ?a] =>
             pose proof (ystep_keeps md y a) as [Ks Kd];
-            destruct (ystep nint md y a) as [y1 failed] eqn:E; cbn [fst snd] in Ks, Kd
+            destruct (ystep nint M md y a) as [y1 failed] eqn:E; cbn [fst snd] in Ks, Kd
         end;
         destruct failed;
         [ exists []; cbn [fst snd]; split; [rewrite Kd; reflexivity|];
@@ -223,7 +226,8 @@ Record ybase := mkYB {
   yb_s : logs; yb_t : logs;
   yb_ds : list dlv; yb_dt : list dlv;
   yb_ws : list (nat * Z); yb_wt : list (nat * Z);
-  yb_N : nat
+  yb_N : nat;
+  yb_X : list Z; yb_X' : list Z      (* the ids of the pre-built events in the two runs *)
 }.
 
 Definition yb_L (B : ybase) : nat := (length (l_ob (yb_s B)) - length (l_ob (yb_t B)))%nat.
@@ -234,11 +238,13 @@ Record YRest (B : ybase) (y t : ysim) : Prop := mkYRest {
   yr_ser : y_ser t = y_ser y;
   yr_dlv : exists n, y_dlv y = n ++ yb_ds B /\ y_dlv t = n ++ yb_dt B;
   yr_drw : exists n, y_drw y = n ++ yb_ws B /\ y_drw t = n ++ yb_wt B;
-  yr_mdl : MdlRel (yb_L B) (yb_N B) (y_mdl y) (y_mdl t)
+  yr_mdl : MdlRel (yb_L B) (yb_N B) (y_mdl y) (y_mdl t);
+  yr_pre : y_pre y = yb_X B /\ y_pre t = yb_X' B;
+  yr_pdone : y_pdone t = y_pdone y
 }.
 
 Definition YSim (B : ybase) (y t : ysim) : Prop :=
-  IdSim (yb_s B) (yb_t B) (y_sim y) (y_sim t) /\ YRest B y t.
+  IdSimX (yb_X B) (yb_X' B) (yb_s B) (yb_t B) (y_sim y) (y_sim t) /\ YRest B y t.
 
 Section YPrims.
 Variable nint : Z -> Z -> Z -> Z.
@@ -249,7 +255,7 @@ Lemma yrest_with_sim y t s s' : YRest B y t -> YRest B (with_sim y s) (with_sim 
 Proof. intros []. constructor; auto. Qed.
 
 Lemma ysim_with_sim y t s s' :
-  YRest B y t -> IdSim (yb_s B) (yb_t B) s s' -> YSim B (with_sim y s) (with_sim t s').
+  YRest B y t -> IdSimX (yb_X B) (yb_X' B) (yb_s B) (yb_t B) s s' -> YSim B (with_sim y s) (with_sim t s').
 Proof. intros R H. split; [exact H|apply yrest_with_sim; exact R]. Qed.
 
 Lemma yflag_ysim y t : YSim B y t -> YSim B (yflag y) (yflag t).
@@ -270,13 +276,13 @@ Proof.
   exists ((st, k) :: n). rewrite A, A'. auto.
 Qed.
 
-Lemma ystep_ysim md y t a :
+Lemma ystep_ysim M md y t a :
   YSim B y t ->
-  YSim B (fst (ystep nint md y a)) (fst (ystep nint md t a))
-  /\ snd (ystep nint md t a) = snd (ystep nint md y a).
+  YSim B (fst (ystep nint M md y a)) (fst (ystep nint M md t a))
+  /\ snd (ystep nint M md t a) = snd (ystep nint M md y a).
 Proof.
-  intros Y. destruct a as [b|st lo hi mult prio h|sid st lo hi|sid st|et|et l|et l]; cbn [ystep].
-  - destruct Y as [H R]. destruct (exec_action_idsim _ _ md _ _ b H) as [H1 E1].
+  intros Y. destruct a as [b|st lo hi mult prio h|sid st lo hi|sid st|et|et l|et l|j]; cbn [ystep].
+  - destruct Y as [H R]. destruct (exec_action_idsim _ _ _ _ md _ _ b H) as [H1 E1].
     destruct (exec_action md (y_sim y) b) as [s1 f1], (exec_action md (y_sim t) b) as [t1 f2].
     cbn [fst snd] in *. split; auto. apply ysim_with_sim; auto.
   - pose proof (draw_ysim st y t Y) as D.
@@ -287,24 +293,43 @@ Proof.
   - pose proof (draw_ysim st y t Y) as D.
     destruct (draw st y) as [[k y1]|], (draw st t) as [[k' t1]|]; try contradiction.
     + destruct D as (-> & [H1 R1] & _ & _). cbn [fst snd]. split; auto.
-      apply ysim_with_sim; auto. rewrite (idsim_clock _ _ _ _ H1). apply set_obs_idsim; auto.
+      apply ysim_with_sim; auto. rewrite (idsim_clock _ _ _ _ _ _ H1). apply set_obs_idsim; auto.
     + cbn [fst snd]. split; auto. apply yflag_ysim; auto.
   - pose proof (draw_ysim st y t Y) as D.
     destruct (draw st y) as [[k y1]|], (draw st t) as [[k' t1]|]; try contradiction.
     + destruct D as (-> & [H1 R1] & _ & _). cbn [fst snd]. split; auto.
-      apply ysim_with_sim; auto. rewrite (idsim_clock _ _ _ _ H1). apply set_obs_idsim; auto.
+      apply ysim_with_sim; auto. rewrite (idsim_clock _ _ _ _ _ _ H1). apply set_obs_idsim; auto.
     + cbn [fst snd]. split; auto. apply yflag_ysim; auto.
   - split; auto.
   - cbn [fst snd]. split; auto. destruct Y as [H R]. split; [exact H|].
     destruct R. constructor; cbn; auto. rewrite yr_subm0. reflexivity.
   - cbn [fst snd]. split; auto. destruct Y as [H R]. split; [exact H|].
     destruct R. constructor; cbn; auto. rewrite yr_subm0. reflexivity.
+  - cbn [fst snd]. split; auto. destruct Y as [H R]. unfold sched_pre.
+    rewrite (yr_pdone _ _ _ R). destruct (memn j (y_pdone y)); [split; auto|].
+    destruct (yr_pre _ _ _ R) as [Px Px']. rewrite Px, Px'.
+    destruct (nth_error (ym_pre M) j) as [[[tm prio] h]|]; [|split; auto].
+    assert (En : nth_error (yb_X' B) j = option_map (fun p => p) (nth_error (yb_X' B) j)) by (destruct (nth_error (yb_X' B) j); reflexivity).
+    assert (Q : forall f, map f (yb_X B) = yb_X' B ->
+                match nth_error (yb_X B) j, nth_error (yb_X' B) j with
+                | Some _, Some _ | None, None => True | _, _ => False end).
+    { intros f Q. rewrite <- Q, nth_error_map. destruct (nth_error (yb_X B) j); exact I. }
+    destruct H as [[f C] L]. specialize (Q f (cs_x _ _ _ _ _ C)).
+    destruct (nth_error (yb_X B) j) as [p|] eqn:Ep, (nth_error (yb_X' B) j) as [p'|] eqn:Ep'; try contradiction.
+    2: { split; [split; eauto|exact R]. }
+    assert (H : IdSimX (yb_X B) (yb_X' B) (yb_s B) (yb_t B) (y_sim y) (y_sim t)) by (split; eauto).
+    rewrite (idsim_clock _ _ _ _ _ _ H).
+    split.
+    + cbn [y_sim]. destruct (tm <? clock (y_sim y)).
+      * apply out_idsim; auto.
+      * apply out_idsim. apply (put_old_idsim _ _ _ _ _ _ tm prio h j p p' Ep Ep' H).
+    + destruct R. constructor; cbn; auto.
 Qed.
 
 Lemma log_dlv_ysim et l ser y t : YSim B y t -> YSim B (log_dlv et l ser y) (log_dlv et l ser t).
 Proof.
   intros [H R]. split; [exact H|]. destruct R as [R1 R2 R3 [n [A A']] R5 R6]. constructor; cbn; auto.
-  exists (mkDlv et l ser (clock (y_sim y)) :: n). rewrite (idsim_clock _ _ _ _ H), A, A'. auto.
+  exists (mkDlv et l ser (clock (y_sim y)) :: n). rewrite (idsim_clock _ _ _ _ _ _ H), A, A'. auto.
 Qed.
 
 Lemma bump_ser_ysim y t : YSim B y t -> YSim B (bump_ser y) (bump_ser t).
@@ -320,10 +345,10 @@ Proof.
   induction fuel as [|f IH]; intros y t stack Y; cbn [ymachine].
   - destruct stack; cbn [fst snd]; split; auto using yflag_ysim.
   - destruct stack as [|[a|et l s] r]; [split; auto| |].
-    + destruct a as [b|st lo hi mult prio h|sid st lo hi|sid st|et|et l|et l];
-      try (match goal with |- context [ystep nint md y ?a] =>
-             destruct (ystep_ysim md y t a Y) as [Y1 E1];
-             destruct (ystep nint md y a) as [y1 f1], (ystep nint md t a) as [t1 f2];
+    + destruct a as [b|st lo hi mult prio h|sid st lo hi|sid st|et|et l|et l|j];
+      try (match goal with |- context [ystep nint M md y ?a] =>
+             destruct (ystep_ysim M md y t a Y) as [Y1 E1];
+             destruct (ystep nint M md y a) as [y1 f1], (ystep nint M md t a) as [t1 f2];
              cbn [fst snd] in *; subst f2; destruct f1; [split; auto|apply IH; auto] end; fail).
       unfold fire_items. destruct Y as [H R]. rewrite (yr_subm _ _ _ R), (yr_ser _ _ _ R).
       apply IH. apply bump_ser_ysim. split; auto.
@@ -331,36 +356,36 @@ Proof.
 Qed.
 
 Lemma yexec_event_ysim M hf md y t e f :
-  CoreSim f (y_sim y) (y_sim t) -> LogsRel (yb_s B) (yb_t B) (y_sim y) (y_sim t) -> YRest B y t ->
+  CoreSim (yb_X B) (yb_X' B) f (y_sim y) (y_sim t) -> LogsRel (yb_s B) (yb_t B) (y_sim y) (y_sim t) -> YRest B y t ->
   YSim B (fst (yexec_event nint M hf md y e)) (fst (yexec_event nint M hf md t (ren f e)))
   /\ snd (yexec_event nint M hf md t (ren f e)) = snd (yexec_event nint M hf md y e).
 Proof.
   intros C L R. unfold yexec_event. cbn [ev_h ren].
-  pose proof (set_trace_idsim _ _ (y_sim y) (y_sim t) e f C L (or_intror I)) as H.
+  pose proof (set_trace_idsim _ _ _ _ (y_sim y) (y_sim t) e f C L (or_intror I)) as H.
   destruct (ev_h e).
   - cbn [fst snd]. split; auto. apply ysim_with_sim; auto.
     set (s1 := set_trace ((e, clock (y_sim y)) :: trace (y_sim y)) (y_sim y)) in *.
     set (t1 := set_trace ((ren f e, clock (y_sim t)) :: trace (y_sim t)) (y_sim t)) in *.
-    rewrite (idsim_clock _ _ _ _ H).
-    assert (H1 : IdSim (yb_s B) (yb_t B) (emit (NWarmup (clock s1)) s1) (emit (NWarmup (clock s1)) t1))
+    rewrite (idsim_clock _ _ _ _ _ _ H).
+    assert (H1 : IdSimX (yb_X B) (yb_X' B) (yb_s B) (yb_t B) (emit (NWarmup (clock s1)) s1) (emit (NWarmup (clock s1)) t1))
       by (apply emit_idsim; auto).
-    exact (set_obs_idsim _ _ _ _ (ObsWarm (clock s1)) H1).
+    exact (set_obs_idsim _ _ _ _ _ _ (ObsWarm (clock s1)) H1).
   - unfold yexec. apply ymachine_ysim. apply ysim_with_sim; auto.
 Qed.
 
 Lemma ytake_event_ysim M hf y t e r f :
-  CoreSim f (y_sim y) (y_sim t) -> LogsRel (yb_s B) (yb_t B) (y_sim y) (y_sim t) -> YRest B y t ->
+  CoreSim (yb_X B) (yb_X' B) f (y_sim y) (y_sim t) -> LogsRel (yb_s B) (yb_t B) (y_sim y) (y_sim t) -> YRest B y t ->
   pend (y_sim y) = e :: r ->
   YSim B (ytake_event nint M hf y e r) (ytake_event nint M hf t (ren f e) (map (ren f) r)).
 Proof.
-  intros C L R E. destruct (pop_coresim f _ _ e r C E) as [_ C0].
+  intros C L R E. destruct (pop_coresim _ _ f _ _ e r C E) as [_ C0].
   unfold ytake_event. cbn [ev_time ren].
   set (s0 := set_pend r (y_sim y)). set (t0 := set_pend (map (ren f) r) (y_sim t)).
   assert (L0 : LogsRel (yb_s B) (yb_t B) s0 t0) by (eapply LogsRel_same; eauto).
-  replace (clock t0) with (clock s0) by (symmetry; apply (cs_clock _ _ _ C0)).
+  replace (clock t0) with (clock s0) by (symmetry; apply (cs_clock _ _ _ _ _ C0)).
   set (s1 := if ev_time e =? clock s0 then s0 else emit (NTime (ev_time e)) s0).
   set (t1 := if ev_time e =? clock s0 then t0 else emit (NTime (ev_time e)) t0).
-  assert (C2 : CoreSim f (set_clock (ev_time e) s1) (set_clock (ev_time e) t1)).
+  assert (C2 : CoreSim (yb_X B) (yb_X' B) f (set_clock (ev_time e) s1) (set_clock (ev_time e) t1)).
   { unfold s1, t1. destruct (ev_time e =? clock s0); destruct C0; constructor; auto. }
   assert (L2 : LogsRel (yb_s B) (yb_t B) (set_clock (ev_time e) s1) (set_clock (ev_time e) t1)).
   { unfold s1, t1. destruct (ev_time e =? clock s0).
@@ -372,7 +397,7 @@ Proof.
   destruct (yexec_event nint M hf InRun (with_sim y (set_clock (ev_time e) s1)) e) as [y3 fl].
   destruct (yexec_event nint M hf InRun (with_sim t (set_clock (ev_time e) t1)) (ren f e)) as [t3 fl'].
   cbn [fst snd] in *. subst fl'. destruct Y3 as [H3 R3].
-  rewrite (idsim_strat _ _ _ _ H3).
+  rewrite (idsim_strat _ _ _ _ _ _ H3).
   destruct fl, (strat (y_sim y3)); try (split; auto; fail).
   apply ysim_with_sim; auto. apply set_rs_idsim; auto.
 Qed.
@@ -387,9 +412,9 @@ Proof. split; reflexivity. Qed.
 Lemma same_bi_trans a b c : same_bi a b -> same_bi b c -> same_bi a c.
 Proof. intros [A1 A2] [B1 B2]. split; congruence. Qed.
 
-Lemma ystep_bi md y a : same_bi (y_sim y) (y_sim (fst (ystep nint md y a))).
+Lemma ystep_bi M md y a : same_bi (y_sim y) (y_sim (fst (ystep nint M md y a))).
 Proof.
-  destruct a as [b|st lo hi mult prio h|sid st lo hi|sid st|et|et l|et l]; cbn [ystep]; try (split; reflexivity).
+  destruct a as [b|st lo hi mult prio h|sid st lo hi|sid st|et|et l|et l|j]; cbn [ystep]; try (split; reflexivity).
   - pose proof (exec_action_hstep md (y_sim y) b) as [F _ _ _ _].
     destruct (exec_action md (y_sim y) b) as [s1 f1]. cbn [fst y_sim with_sim] in *.
     split; [apply (fr_bound _ _ F)|apply (fr_incl _ _ F)].
@@ -398,6 +423,10 @@ Proof.
     split; [apply (fr_bound _ _ F)|apply (fr_incl _ _ F)].
   - unfold draw. destruct (nth st (y_str y) []); cbn [fst y_sim with_sim yflag]; split; reflexivity.
   - unfold draw. destruct (nth st (y_str y) []); cbn [fst y_sim with_sim yflag]; split; reflexivity.
+  - unfold sched_pre. destruct (memn j (y_pdone y)); [split; reflexivity|].
+    destruct (nth_error (ym_pre M) j) as [[[tm prio] h]|]; [|split; reflexivity].
+    destruct (nth_error (y_pre y) j); [|split; reflexivity].
+    cbn [fst y_sim]. destruct (tm <? clock (y_sim y)); split; reflexivity.
 Qed.
 
 Lemma ymachine_bi M fuel md : forall y stack, same_bi (y_sim y) (y_sim (fst (ymachine nint M fuel md y stack))).
@@ -405,9 +434,9 @@ Proof.
   induction fuel as [|f IH]; intros y stack; cbn [ymachine].
   - destruct stack; split; reflexivity.
   - destruct stack as [|[a|et l s] r]; [split; reflexivity| |].
-    + destruct a as [b|st lo hi mult prio h|sid st lo hi|sid st|et|et l|et l];
-      try (match goal with |- context [ystep nint md y ?a] =>
-             pose proof (ystep_bi md y a) as Q; destruct (ystep nint md y a) as [y1 f1]; cbn [fst] in *;
+    + destruct a as [b|st lo hi mult prio h|sid st lo hi|sid st|et|et l|et l|j];
+      try (match goal with |- context [ystep nint M md y ?a] =>
+             pose proof (ystep_bi M md y a) as Q; destruct (ystep nint M md y a) as [y1 f1]; cbn [fst] in *;
              destruct f1; [exact Q|eapply same_bi_trans; [exact Q|apply IH]] end; fail).
       apply (same_bi_trans _ (y_sim (bump_ser y))); [split; reflexivity|apply IH].
     + apply (same_bi_trans _ (y_sim (log_dlv et l s y))); [split; reflexivity|apply IH].
@@ -438,14 +467,14 @@ Lemma yrun_loop_ysim M fuel hf : forall y t,
   YSim B y t -> SameBound (y_sim y) (y_sim t) ->
   YSim B (yrun_loop nint M fuel hf y) (yrun_loop nint M fuel hf t).
 Proof.
-  induction fuel as [|n IH]; intros y t [H R] SB; cbn [yrun_loop]; rewrite (idsim_running _ _ _ _ H).
+  induction fuel as [|n IH]; intros y t [H R] SB; cbn [yrun_loop]; rewrite (idsim_running _ _ _ _ _ _ H).
   - destruct (running (y_sim y)); [apply yflag_ysim|]; split; auto.
   - destruct (running (y_sim y)); [|split; auto].
     destruct H as [[f C] L].
     destruct (pend (y_sim y)) as [|e r] eqn:E.
-    + rewrite (cs_pend _ _ _ C), E. cbn [map]. apply ysim_with_sim; auto.
+    + rewrite (cs_pend _ _ _ _ _ C), E. cbn [map]. apply ysim_with_sim; auto.
       apply stop_at_bound_idsim; auto. split; eauto.
-    + destruct (pop_coresim f _ _ e r C E) as [Et _]. rewrite Et.
+    + destruct (pop_coresim _ _ f _ _ e r C E) as [Et _]. rewrite Et.
       assert (Bq : beyond (y_sim t) (ren f e) = beyond (y_sim y) e).
       { unfold beyond. destruct SB as [-> ->]. reflexivity. }
       rewrite Bq. destruct (beyond (y_sim y) e).
@@ -461,13 +490,13 @@ Lemma yworker_run_ysim M fuel hf y t :
   YSim B y t -> SameBound (y_sim y) (y_sim t) ->
   YSim B (yworker_run nint M fuel hf y) (yworker_run nint M fuel hf t).
 Proof.
-  intros [H R] SB. unfold yworker_run. rewrite (idsim_worker _ _ _ _ H).
+  intros [H R] SB. unfold yworker_run. rewrite (idsim_worker _ _ _ _ _ _ H).
   destruct (worker (y_sim y)); try (split; auto; fail).
-  rewrite (idsim_ps _ _ _ _ H).
+  rewrite (idsim_ps _ _ _ _ _ _ H).
   assert (G : forall y1 t1, YSim B y1 t1 -> YSim B (with_sim y1 (worker_ending (y_sim y1))) (with_sim t1 (worker_ending (y_sim t1)))).
   { intros y1 t1 [H1 R1]. apply ysim_with_sim; auto. apply worker_ending_idsim; auto. }
   destruct (ps (y_sim y)); try (apply G; split; auto; fail);
-  apply G; rewrite (idsim_clock _ _ _ _ H);
+  apply G; rewrite (idsim_clock _ _ _ _ _ _ H);
   (assert (Ya : YSim B (with_sim y (set_rs RStarted (emit (NStart (clock (y_sim y))) (y_sim y))))
                        (with_sim t (set_rs RStarted (emit (NStart (clock (y_sim y))) (y_sim t)))))
      by (apply ysim_with_sim; auto; apply set_rs_idsim, emit_idsim; auto));
@@ -475,7 +504,7 @@ Proof.
                           (y_sim (with_sim t (set_rs RStarted (emit (NStart (clock (y_sim y))) (y_sim t))))))
      by exact SB);
   destruct (yrun_loop_ysim M fuel hf _ _ Ya Sa) as [Hb Rb];
-  apply ysim_with_sim; auto; rewrite (idsim_clock _ _ _ _ Hb); apply set_rs_idsim, emit_idsim; auto.
+  apply ysim_with_sim; auto; rewrite (idsim_clock _ _ _ _ _ _ Hb); apply set_rs_idsim, emit_idsim; auto.
 Qed.
 
 Lemma ydo_start_ysim M fuel hf y t b i :
@@ -483,34 +512,34 @@ Lemma ydo_start_ysim M fuel hf y t b i :
   YSim B (fst (ydo_start nint M fuel hf y b i)) (fst (ydo_start nint M fuel hf t b i))
   /\ snd (ydo_start nint M fuel hf t b i) = snd (ydo_start nint M fuel hf y b i).
 Proof.
-  intros [H R]. unfold ydo_start. rewrite (start_checks_idsim _ _ _ _ H).
+  intros [H R]. unfold ydo_start. rewrite (start_checks_idsim _ _ _ _ _ _ H).
   destruct (start_checks (y_sim y)); [|split; auto; split; auto].
   destruct b as [bz|]; [|split; auto; split; auto].
-  rewrite (idsim_clock _ _ _ _ H). destruct (bz <? clock (y_sim y)); [split; auto; split; auto|].
-  rewrite (idsim_end_time _ _ _ _ H).
+  rewrite (idsim_clock _ _ _ _ _ _ H). destruct (bz <? clock (y_sim y)); [split; auto; split; auto|].
+  rewrite (idsim_end_time _ _ _ _ _ _ H).
   destruct (if bz >? end_time (y_sim y) then (end_time (y_sim y), true) else (bz, i)) as [bz' i'].
   cbn [fst snd]. split; auto.
   set (s1 := set_rs RStarting (set_incl i' (set_bound bz' (y_sim y)))).
   set (t1 := set_rs RStarting (set_incl i' (set_bound bz' (y_sim t)))).
-  assert (H1 : IdSim (yb_s B) (yb_t B) s1 t1)
+  assert (H1 : IdSimX (yb_X B) (yb_X' B) (yb_s B) (yb_t B) s1 t1)
     by (unfold s1, t1; apply set_rs_idsim, set_incl_idsim, set_bound_idsim; auto).
   assert (S1 : SameBound s1 t1) by (split; reflexivity).
-  rewrite (idsim_ps _ _ _ _ H1), (idsim_clock _ _ _ _ H1).
+  rewrite (idsim_ps _ _ _ _ _ _ H1), (idsim_clock _ _ _ _ _ _ H1).
   apply yworker_run_ysim.
   - apply ysim_with_sim; auto. apply emit_idsim. destruct (ps s1); auto using set_ps_idsim, emit_idsim.
   - cbn [y_sim with_sim]. destruct (ps s1); exact S1.
 Qed.
 
 Lemma ystep_event_ysim M hf y t e r f :
-  CoreSim f (y_sim y) (y_sim t) -> LogsRel (yb_s B) (yb_t B) (y_sim y) (y_sim t) -> YRest B y t ->
+  CoreSim (yb_X B) (yb_X' B) f (y_sim y) (y_sim t) -> LogsRel (yb_s B) (yb_t B) (y_sim y) (y_sim t) -> YRest B y t ->
   pend (y_sim y) = e :: r ->
   YSim B (ystep_event nint M hf y e r) (ystep_event nint M hf t (ren f e) (map (ren f) r)).
 Proof.
-  intros C L R E. destruct (pop_coresim f _ _ e r C E) as [_ C0].
+  intros C L R E. destruct (pop_coresim _ _ f _ _ e r C E) as [_ C0].
   unfold ystep_event. cbn [ev_time ren].
   set (s0 := set_pend r (y_sim y)). set (t0 := set_pend (map (ren f) r) (y_sim t)).
   assert (L0 : LogsRel (yb_s B) (yb_t B) s0 t0) by (eapply LogsRel_same; eauto).
-  assert (C1 : CoreSim f (set_clock (ev_time e) (emit (NTime (ev_time e)) s0))
+  assert (C1 : CoreSim (yb_X B) (yb_X' B) f (set_clock (ev_time e) (emit (NTime (ev_time e)) s0))
                          (set_clock (ev_time e) (emit (NTime (ev_time e)) t0))).
   { destruct C0. constructor; auto. }
   assert (L1 : LogsRel (yb_s B) (yb_t B) (set_clock (ev_time e) (emit (NTime (ev_time e)) s0))
@@ -528,29 +557,29 @@ Lemma ydo_step_ysim M hf y t :
   YSim B (fst (ydo_step nint M hf y)) (fst (ydo_step nint M hf t))
   /\ snd (ydo_step nint M hf t) = snd (ydo_step nint M hf y).
 Proof.
-  intros [H R]. unfold ydo_step. rewrite (step_checks_idsim _ _ _ _ H).
+  intros [H R]. unfold ydo_step. rewrite (step_checks_idsim _ _ _ _ _ _ H).
   destruct (step_checks (y_sim y)); [|split; auto; split; auto]. cbn [fst snd]. split; auto.
-  rewrite (idsim_ps _ _ _ _ H), (idsim_clock _ _ _ _ H).
+  rewrite (idsim_ps _ _ _ _ _ _ H), (idsim_clock _ _ _ _ _ _ H).
   set (s1 := match ps (y_sim y) with PInit => set_ps PStarted (emit (NStartRepl (clock (y_sim y))) (y_sim y)) | _ => y_sim y end).
   set (t1 := match ps (y_sim y) with PInit => set_ps PStarted (emit (NStartRepl (clock (y_sim y))) (y_sim t)) | _ => y_sim t end).
-  assert (H1 : IdSim (yb_s B) (yb_t B) s1 t1)
+  assert (H1 : IdSimX (yb_X B) (yb_X' B) (yb_s B) (yb_t B) s1 t1)
     by (unfold s1, t1; destruct (ps (y_sim y)); auto using set_ps_idsim, emit_idsim).
-  rewrite (idsim_clock _ _ _ _ H1).
+  rewrite (idsim_clock _ _ _ _ _ _ H1).
   set (s2 := emit (NStart (clock s1)) (set_rs RStarted s1)).
   set (t2 := emit (NStart (clock s1)) (set_rs RStarted t1)).
-  assert (H2 : IdSim (yb_s B) (yb_t B) s2 t2) by (unfold s2, t2; apply emit_idsim, set_rs_idsim; auto).
+  assert (H2 : IdSimX (yb_X B) (yb_X' B) (yb_s B) (yb_t B) s2 t2) by (unfold s2, t2; apply emit_idsim, set_rs_idsim; auto).
   assert (Y3 : YSim B
       (match pend s2 with [] => with_sim y s2 | e :: r => if ev_time e >? end_time s2 then with_sim y s2 else ystep_event nint M hf (with_sim y s2) e r end)
       (match pend t2 with [] => with_sim t t2 | e :: r => if ev_time e >? end_time t2 then with_sim t t2 else ystep_event nint M hf (with_sim t t2) e r end)).
   { destruct H2 as [[f C] L]. destruct (pend s2) as [|e r] eqn:E.
-    - rewrite (cs_pend _ _ _ C), E. cbn [map]. apply ysim_with_sim; auto. split; eauto.
-    - destruct (pop_coresim f s2 t2 e r C E) as [Et _]. rewrite Et.
-      assert (EE : end_time t2 = end_time s2) by (unfold end_time; rewrite (cs_rep _ _ _ C); reflexivity).
+    - rewrite (cs_pend _ _ _ _ _ C), E. cbn [map]. apply ysim_with_sim; auto. split; eauto.
+    - destruct (pop_coresim _ _ f s2 t2 e r C E) as [Et _]. rewrite Et.
+      assert (EE : end_time t2 = end_time s2) by (unfold end_time; rewrite (cs_rep _ _ _ _ _ C); reflexivity).
       rewrite EE. cbn [ev_time ren]. destruct (ev_time e >? end_time s2); [apply ysim_with_sim; auto; split; eauto|].
       apply (ystep_event_ysim M hf (with_sim y s2) (with_sim t t2) e r f); auto.
       apply yrest_with_sim; auto. }
   destruct Y3 as [H3 R3]. apply ysim_with_sim; auto.
-  rewrite (idsim_clock _ _ _ _ H3). apply set_rs_idsim, emit_idsim; auto.
+  rewrite (idsim_clock _ _ _ _ _ _ H3). apply set_rs_idsim, emit_idsim; auto.
 Qed.
 
 Lemma ydo_end_repl_ysim M fuel hf y t :
@@ -558,16 +587,16 @@ Lemma ydo_end_repl_ysim M fuel hf y t :
   YSim B (fst (ydo_end_repl nint M fuel hf y)) (fst (ydo_end_repl nint M fuel hf t))
   /\ snd (ydo_end_repl nint M fuel hf t) = snd (ydo_end_repl nint M fuel hf y).
 Proof.
-  intros [H R]. unfold ydo_end_repl. rewrite (idsim_ps _ _ _ _ H).
+  intros [H R]. unfold ydo_end_repl. rewrite (idsim_ps _ _ _ _ _ _ H).
   destruct (ps (y_sim y)); cbn [fst snd]; split; auto; try (split; auto; fail).
-  rewrite (idsim_clock _ _ _ _ H), (idsim_end_time _ _ _ _ H).
+  rewrite (idsim_clock _ _ _ _ _ _ H), (idsim_end_time _ _ _ _ _ _ H).
   set (s1 := if clock (y_sim y) <? end_time (y_sim y) then set_clock (end_time (y_sim y)) (y_sim y) else y_sim y).
   set (t1 := if clock (y_sim y) <? end_time (y_sim y) then set_clock (end_time (y_sim y)) (y_sim t) else y_sim t).
-  assert (H1 : IdSim (yb_s B) (yb_t B) s1 t1)
+  assert (H1 : IdSimX (yb_X B) (yb_X' B) (yb_s B) (yb_t B) s1 t1)
     by (unfold s1, t1; destruct (clock (y_sim y) <? end_time (y_sim y)); auto using set_clock_idsim).
   set (s2 := set_pend [] (set_ps PEnding s1)). set (t2 := set_pend [] (set_ps PEnding t1)).
-  assert (H2 : IdSim (yb_s B) (yb_t B) s2 t2) by (unfold s2, t2; apply clear_idsim, set_ps_idsim; auto).
-  unfold yworker_run. cbn [y_sim with_sim]. rewrite (idsim_worker _ _ _ _ H2). destruct (worker s2); try (apply ysim_with_sim; auto; fail).
+  assert (H2 : IdSimX (yb_X B) (yb_X' B) (yb_s B) (yb_t B) s2 t2) by (unfold s2, t2; apply clear_idsim, set_ps_idsim; auto).
+  unfold yworker_run. cbn [y_sim with_sim]. rewrite (idsim_worker _ _ _ _ _ _ H2). destruct (worker s2); try (apply ysim_with_sim; auto; fail).
   replace (ps s2) with PEnding by reflexivity. replace (ps t2) with PEnding by reflexivity. cbv iota.
   apply ysim_with_sim; [apply yrest_with_sim; auto|]. cbn [y_sim with_sim]. apply worker_ending_idsim. exact H2.
 Qed.
@@ -588,10 +617,10 @@ Proof. unfold rsps. cbn [y_sim with_sim y_subm y_str y_ser y_dlv y_drw y_mdl]. r
 
 (* code run from construct_model does not look at the run / replication state *)
 Lemma ystep_construct_rsps a b y act :
-  ystep nint InConstruct (rsps a b y) act
-  = (rsps a b (fst (ystep nint InConstruct y act)), snd (ystep nint InConstruct y act)).
+  ystep nint M InConstruct (rsps a b y) act
+  = (rsps a b (fst (ystep nint M InConstruct y act)), snd (ystep nint M InConstruct y act)).
 Proof.
-  destruct act as [x|st lo hi mult prio h|sid st lo hi|sid st|et|et l|et l]; cbn [ystep]; try reflexivity.
+  destruct act as [x|st lo hi mult prio h|sid st lo hi|sid st|et|et l|et l|j]; cbn [ystep]; try reflexivity.
   - unfold rsps at 1. cbn [y_sim with_sim]. rewrite exec_action_construct_rsps.
     destruct (exec_action InConstruct (y_sim y) x) as [s1 f1]. reflexivity.
   - unfold draw, rsps. cbn [y_str with_sim y_sim]. destruct (nth st (y_str y) []) as [|k r]; [reflexivity|].
@@ -600,6 +629,11 @@ Proof.
     cbn [exec_action fst snd] in Q. inversion Q as [Q1]. rewrite Q1. reflexivity.
   - unfold draw, rsps. cbn [y_str with_sim y_sim]. destruct (nth st (y_str y) []) as [|k r]; reflexivity.
   - unfold draw, rsps. cbn [y_str with_sim y_sim]. destruct (nth st (y_str y) []) as [|k r]; reflexivity.
+  - unfold sched_pre, rsps. cbn [y_pdone y_pre with_sim y_sim].
+    destruct (memn j (y_pdone y)); [reflexivity|].
+    destruct (nth_error (ym_pre M) j) as [[[tm prio] h]|]; [|reflexivity].
+    destruct (nth_error (y_pre y) j); [|reflexivity].
+    cbn [fst snd y_sim]. destruct (y_sim y) as [ck pd ni r0 p0 bd ic sg wk rp cr cn tr ou nt ob fl]. cbn. destruct (tm <? ck); reflexivity.
 Qed.
 
 Lemma ymachine_construct_rsps a b fuel : forall y stack,
@@ -609,10 +643,10 @@ Proof.
   induction fuel as [|f IH]; intros y stack; cbn [ymachine].
   - destruct stack; reflexivity.
   - destruct stack as [|[x|et l s] r]; [reflexivity| |].
-    + destruct x as [x|st lo hi mult prio h|sid st lo hi|sid st|et|et l|et l];
-      try (match goal with |- context [ystep nint InConstruct (rsps a b y) ?act] =>
+    + destruct x as [x|st lo hi mult prio h|sid st lo hi|sid st|et|et l|et l|j];
+      try (match goal with |- context [ystep nint M InConstruct (rsps a b y) ?act] =>
              rewrite (ystep_construct_rsps a b y act);
-             destruct (ystep nint InConstruct y act) as [y1 f1]; cbn [fst snd];
+             destruct (ystep nint M InConstruct y act) as [y1 f1]; cbn [fst snd];
              destruct f1; [reflexivity|apply IH] end; fail).
       replace (fire_items et (rsps a b y)) with (fire_items et y) by reflexivity.
       replace (bump_ser (rsps a b y)) with (rsps a b (bump_ser y)) by reflexivity.
@@ -627,7 +661,7 @@ Definition yinit_body (hf : nat) (y : ysim) (r : repl) (m1 : mdl) : ysim :=
   let s0 := set_pend [] s in
   let s1 := match worker s0 with WNone => s0 | _ => do_cleanup s0 end in
   let s2 := set_created [] (set_clock (r_start r) (set_rep (Some r) (set_worker WAlive s1))) in
-  let ya := mkY s2 (initial_subs M) (ym_streams M) 0 (y_dlv y) (y_drw y) m1 in
+  let ya := mkY s2 (initial_subs M) (ym_streams M) 0 (y_dlv y) (y_drw y) m1 (y_pre y) [] in
   let '(y3, failed) := yexec nint M hf InConstruct ya (hbody M 0) in
   let y4 := if failed then yflag y3 else y3 in
   let s5 := set_ps PInit (set_rs RInit (y_sim y4)) in
@@ -644,7 +678,7 @@ Lemma ydo_init_eq hf y r :
     let m0 := mkMdl [] (map (cut_obj n) (m_objs (y_mdl y))) in
     if snd (build_stats n (ym_stats M) m0)
     then (yinit_body hf y r (fst (build_stats n (ym_stats M) m0)), ResOk, false)
-    else (mkY (y_sim y) (y_subm y) (y_str y) (y_ser y) (y_dlv y) (y_drw y) (fst (build_stats n (ym_stats M) m0)),
+    else (mkY (y_sim y) (y_subm y) (y_str y) (y_ser y) (y_dlv y) (y_drw y) (fst (build_stats n (ym_stats M) m0)) (y_pre y) (y_pdone y),
           ResRefused, true).
 Proof.
   unfold ydo_init, yinit_body. destruct (running (y_sim y)); auto. cbv zeta.
@@ -657,13 +691,14 @@ Proof.
   unfold yinit_body. cbv zeta.
   replace (y_dlv (rsps a b y)) with (y_dlv y) by reflexivity.
   replace (y_drw (rsps a b y)) with (y_drw y) by reflexivity.
+  replace (y_pre (rsps a b y)) with (y_pre y) by reflexivity.
   replace (worker (set_pend [] (y_sim (rsps a b y)))) with (worker (y_sim y)) by reflexivity.
   replace (worker (set_pend [] (y_sim y))) with (worker (y_sim y)) by reflexivity.
   destruct (worker (y_sim y)) eqn:W.
   - set (s2 := set_created [] (set_clock (r_start r) (set_rep (Some r) (set_worker WAlive (set_pend [] (y_sim y)))))).
-    set (ya := mkY s2 (initial_subs M) (ym_streams M) 0 (y_dlv y) (y_drw y) m1).
+    set (ya := mkY s2 (initial_subs M) (ym_streams M) 0 (y_dlv y) (y_drw y) m1 (y_pre y) []).
     replace (mkY (set_created [] (set_clock (r_start r) (set_rep (Some r) (set_worker WAlive
-               (set_pend [] (y_sim (rsps a b y))))))) (initial_subs M) (ym_streams M) 0 (y_dlv y) (y_drw y) m1)
+               (set_pend [] (y_sim (rsps a b y))))))) (initial_subs M) (ym_streams M) 0 (y_dlv y) (y_drw y) m1 (y_pre y) [])
       with (rsps a b ya) by (unfold rsps, ya, s2; cbn [y_sim with_sim]; destruct (y_sim y); reflexivity).
     unfold yexec. rewrite ymachine_construct_rsps.
     destruct (ymachine nint M hf InConstruct ya (map IAct (hbody M 0))) as [y3 fl]. cbn [fst snd].
@@ -699,7 +734,7 @@ Lemma yinit_body_tail M hf y r m1 :
     (mkY (set_created [] (set_clock (r_start r) (set_rep (Some r) (set_worker WAlive
             (match worker (set_pend [] (y_sim y)) with WNone => set_pend [] (y_sim y)
              | _ => do_cleanup (set_pend [] (y_sim y)) end)))))
-         (initial_subs M) (ym_streams M) 0 (y_dlv y) (y_drw y) m1).
+         (initial_subs M) (ym_streams M) 0 (y_dlv y) (y_drw y) m1 (y_pre y) []).
 Proof. reflexivity. Qed.
 
 Variable B : ybase.
@@ -714,17 +749,17 @@ Proof.
   assert (Y4 : YSim B (if fl then yflag y3 else y3) (if fl then yflag t3 else t3))
     by (destruct fl; auto using yflag_ysim).
   destruct Y4 as [H4 R4]. apply ysim_with_sim; auto.
-  assert (H5 : IdSim (yb_s B) (yb_t B) (set_ps PInit (set_rs RInit (y_sim (if fl then yflag y3 else y3))))
+  assert (H5 : IdSimX (yb_X B) (yb_X' B) (yb_s B) (yb_t B) (set_ps PInit (set_rs RInit (y_sim (if fl then yflag y3 else y3))))
                                        (set_ps PInit (set_rs RInit (y_sim (if fl then yflag t3 else t3)))))
     by (apply set_ps_idsim, set_rs_idsim; auto).
-  rewrite (idsim_clock _ _ _ _ H5).
+  rewrite (idsim_clock _ _ _ _ _ _ H5).
   destruct (r_warm r <? clock (set_ps PInit (set_rs RInit (y_sim (if fl then yflag y3 else y3))))).
   - apply raise_flag_idsim; auto.
   - apply warm_insert_idsim; auto.
 Qed.
 
 Lemma idsim_obs_len_gen s t :
-  IdSim (yb_s B) (yb_t B) s t -> length (obs s) = (length (obs t) + yb_L B)%nat.
+  IdSimX (yb_X B) (yb_X' B) (yb_s B) (yb_t B) s t -> length (obs s) = (length (obs t) + yb_L B)%nat.
 Proof.
   intros [_ [n [A A']]]. unfold yb_L.
   assert (Os : obs s = l_ob n ++ l_ob (yb_s B)) by (change (obs s) with (l_ob (logs_of s)); rewrite A; reflexivity).
@@ -738,7 +773,7 @@ Lemma ydo_init_ysim M hf r y t :
   /\ snd (fst (ydo_init nint M hf t r)) = snd (fst (ydo_init nint M hf y r))
   /\ snd (ydo_init nint M hf t r) = snd (ydo_init nint M hf y r).
 Proof.
-  intros [H R]. rewrite !ydo_init_eq, (idsim_running _ _ _ _ H).
+  intros [H R]. rewrite !ydo_init_eq, (idsim_running _ _ _ _ _ _ H).
   destruct (running (y_sim y)); [cbn [fst snd]; split; [split; auto|auto]|]. cbv zeta.
   pose proof (idsim_obs_len_gen _ _ H) as EL.
   pose proof (cut_all_mrel _ (yb_N B) _ _ _ _ EL (yr_mdl _ _ _ R)) as M0.
@@ -748,8 +783,8 @@ Proof.
   - rewrite !yinit_body_tail. apply yinit_tail_ysim.
     split; cbn [y_sim].
     + apply forget_created_idsim, set_clock_idsim, set_rep_idsim, set_worker_idsim.
-      pose proof (clear_idsim _ _ _ _ H) as H0.
-      rewrite (idsim_worker _ _ _ _ H0). destruct (worker (set_pend [] (y_sim y))); auto using do_cleanup_idsim.
+      pose proof (clear_idsim _ _ _ _ _ _ H) as H0.
+      rewrite (idsim_worker _ _ _ _ _ _ H0). destruct (worker (set_pend [] (y_sim y))); auto using do_cleanup_idsim.
     + destruct R. constructor; cbn; auto.
   - split; [exact H|]. destruct R. constructor; cbn; auto.
 Qed.
@@ -763,10 +798,10 @@ Proof.
   intros Y. pose proof Y as [H R]. destruct c; cbn [ydo_cmd].
   - apply ydo_init_ysim; auto.
   - cbn [fst snd]. auto.
-  - rewrite (idsim_rep _ _ _ _ H). destruct (rep (y_sim y)); cbn [fst snd]; auto.
+  - rewrite (idsim_rep _ _ _ _ _ _ H). destruct (rep (y_sim y)); cbn [fst snd]; auto.
     destruct (ydo_start_ysim nint B M fuel hf y t (TNum (r_end r)) true Y). auto.
   - cbn [fst snd]. destruct (ydo_step_ysim nint B M hf y t Y). auto.
-  - rewrite (idsim_running _ _ _ _ H). destruct (running (y_sim y)); cbn [fst snd]; auto.
+  - rewrite (idsim_running _ _ _ _ _ _ H). destruct (running (y_sim y)); cbn [fst snd]; auto.
     split; auto. apply ysim_with_sim; auto. apply set_rs_idsim, emit_idsim; auto.
   - cbn [fst snd]. destruct (ydo_start_ysim nint B M fuel hf y t t0 false Y). auto.
   - cbn [fst snd]. destruct (ydo_start_ysim nint B M fuel hf y t t0 true Y). auto.
@@ -787,7 +822,7 @@ Proof.
   destruct (IH y1 t1 Y1) as (Y2 & E2 & E2').
   destruct (y_hist nint fuel hf y1 r) as [[y2 sn] b2], (y_hist nint fuel hf t1 r) as [[t2 sn'] b2'].
   cbn [fst snd] in *. subst sn' b2'. split; auto. split; auto.
-  destruct Y1 as [H1 _]. rewrite (snap_idsim _ _ _ _ res H1). reflexivity.
+  destruct Y1 as [H1 _]. rewrite (snap_idsim _ _ _ _ _ _ res H1). reflexivity.
 Qed.
 
 End YTop.
@@ -798,11 +833,18 @@ End YTop.
 Section YTheorems.
 Variable nint : Z -> Z -> Z -> Z.
 
-Lemma ysim_reported base N y t :
-  IdSim base no_logs (y_sim y) (y_sim t) -> MdlRel (length (l_ob base)) N (y_mdl y) (y_mdl t) ->
+Lemma idsimx_logsrel X X' bs bt s t : IdSimX X X' bs bt s t -> LogsRel bs bt s t.
+Proof. intros [_ L]. exact L. Qed.
+
+Lemma ysim_reported X X' base N y t :
+  IdSimX X X' base no_logs (y_sim y) (y_sim t) -> MdlRel (length (l_ob base)) N (y_mdl y) (y_mdl t) ->
   yreported y = yreported t.
 Proof.
-  intros H M. unfold yreported. apply (reported_xrel base N). constructor; auto.
+  intros H [Mm Mo Ml]. unfold yreported, reported. cbn [x_mdl x_sim]. rewrite Mm. unfold shift_map. rewrite map_map. cbn [fst snd].
+  apply map_ext. intros [k i]. cbn [fst snd]. f_equal.
+  rewrite nth_error_skipn, Mo, nth_error_map.
+  destruct (nth_error (m_objs (y_mdl t)) i) as [o|]; cbn [option_map]; auto.
+  rewrite (feed_shiftx X X' _ _ _ o H). reflexivity.
 Qed.
 
 (* RE-INITIALISATION of the composed model.  y: ANY state that is not running
@@ -816,10 +858,14 @@ Qed.
    outcomes, notifications, statistics feed, deliveries to listeners and random
    draws -- on top of what it had logged before; producer, streams and the
    reported statistics are equal. *)
-Theorem y_reinit_fresh M r y fuel hf h :
+Theorem y_reinit_fresh M r y pre' g fuel hf h :
   running (y_sim y) = false -> NoDup (keys_of (ym_stats M)) ->
+  (* the pre-built SimEvent objects of the brand-new model: same order of ids, below the counter *)
+  map g (y_pre y) = pre' ->
+  (forall a b, In a (y_pre y) -> In b (y_pre y) -> a < b -> g a < g b) ->
+  (forall a, In a (y_pre y) -> a < nid (y_sim y)) -> (forall a, In a (y_pre y) -> g a < 0) ->
   let a := fst (fst (ydo_init nint M hf y r)) in
-  let b := fst (fst (ydo_init nint M hf (y0 (strat (y_sim y))) r)) in
+  let b := fst (fst (ydo_init nint M hf (y0p (strat (y_sim y)) pre') r)) in
   let ra := y_hist nint fuel hf a h in
   let rb := y_hist nint fuel hf b h in
   let ya := fst (fst ra) in let yb := fst (fst rb) in
@@ -831,14 +877,14 @@ Theorem y_reinit_fresh M r y fuel hf h :
   /\ y_subm ya = y_subm yb /\ y_str ya = y_str yb /\ y_ser ya = y_ser yb
   /\ yreported ya = yreported yb.
 Proof.
-  intros R ND. cbv zeta.
-  set (B := mkYB (logs_of (y_sim y)) no_logs (y_dlv y) [] (y_drw y) [] (length (m_objs (y_mdl y)))).
+  intros R ND Eg Mg Lg Hg. cbv zeta.
+  set (B := mkYB (logs_of (y_sim y)) no_logs (y_dlv y) [] (y_drw y) [] (length (m_objs (y_mdl y))) (y_pre y) pre').
   assert (BL : (length (l_ob (yb_t B)) <= length (l_ob (yb_s B)))%nat) by (cbn; lia).
   assert (LB : yb_L B = length (obs (y_sim y))) by (unfold yb_L, B; cbn; lia).
   (* the two initialised states are related *)
-  assert (Y0 : YSim B (fst (fst (ydo_init nint M hf y r))) (fst (fst (ydo_init nint M hf (y0 (strat (y_sim y))) r)))
+  assert (Y0 : YSim B (fst (fst (ydo_init nint M hf y r))) (fst (fst (ydo_init nint M hf (y0p (strat (y_sim y)) pre') r)))
                /\ snd (fst (ydo_init nint M hf y r)) = ResOk).
-  { rewrite !ydo_init_eq, R. replace (running (y_sim (y0 (strat (y_sim y))))) with false by reflexivity. cbv zeta.
+  { rewrite !ydo_init_eq, R. replace (running (y_sim (y0p (strat (y_sim y)) pre'))) with false by reflexivity. cbv zeta.
     set (L := length (obs (y_sim y))). set (N := length (m_objs (y_mdl y))).
     assert (M0 : MdlRel L N (mkMdl [] (map (cut_obj L) (m_objs (y_mdl y)))) (mkMdl [] (map (cut_obj 0) []))).
     { constructor; cbn [m_map m_objs map]; auto.
@@ -847,36 +893,39 @@ Proof.
     assert (EL : L = (0 + L)%nat) by reflexivity.
     destruct (build_stats_mrel L N L 0%nat (ym_stats M) _ _ EL M0) as [M1 E1].
     pose proof (build_stats_ok 0%nat (ym_stats M) (mkMdl [] (map (cut_obj 0) [])) ND (fun k _ => eq_refl)) as Ok.
-    replace (length (obs (y_sim (y0 (strat (y_sim y)))))) with 0%nat by reflexivity.
-    replace (m_objs (y_mdl (y0 (strat (y_sim y))))) with (@nil sobj) by reflexivity.
+    replace (length (obs (y_sim (y0p (strat (y_sim y)) pre')))) with 0%nat by reflexivity.
+    replace (m_objs (y_mdl (y0p (strat (y_sim y)) pre'))) with (@nil sobj) by reflexivity.
     rewrite E1, Ok. cbn [fst snd]. split; auto.
     rewrite <- (yinit_body_rsps nint M hf PNotInit RNotInit y).
     rewrite !yinit_body_tail. apply yinit_tail_ysim.
     split; cbn [y_sim].
     - replace (strat (y_sim y)) with (strat (y_sim (rsps PNotInit RNotInit y))) by reflexivity.
-      replace (worker (set_pend [] (y_sim (y0 (strat (y_sim (rsps PNotInit RNotInit y))))))) with WNone by reflexivity.
-      cbv iota. unfold B. cbn [yb_s yb_t].
+      replace (worker (set_pend [] (y_sim (y0p (strat (y_sim (rsps PNotInit RNotInit y))) pre')))) with WNone by reflexivity.
+      cbv iota. unfold B. cbn [yb_s yb_t yb_X yb_X'].
       replace (logs_of (y_sim y)) with (logs_of (y_sim (rsps PNotInit RNotInit y))) by reflexivity.
-      apply init_pre_idsim; reflexivity.
+      apply (init_pre_idsimx (y_pre y) pre' g); auto; reflexivity.
     - constructor; try reflexivity.
       + exists []. auto.
       + exists []. auto.
-      + rewrite LB. exact M1. }
+      + rewrite LB. exact M1.
+      + split; reflexivity. }
   destruct Y0 as [Y0 Ok0]. split; auto.
   destruct (y_hist_ysim nint B BL fuel hf h _ _ Y0) as (Y & E & E').
   destruct Y as [H Rr]. split; [symmetry; exact E|]. split; [symmetry; exact E'|].
-  destruct Rr as [R1 R2 R3 [nd [D D']] [nw [W W']] Rm].
+  destruct Rr as [R1 R2 R3 [nd [D D']] [nw [W W']] Rm Rp Rd].
   cbn [yb_ds yb_dt yb_ws yb_wt B] in *. rewrite app_nil_r in D', W'.
   split.
   { destruct H as [_ [n [A A']]]. cbn [yb_s yb_t B] in *. rewrite lapp_no_logs in A'. rewrite A'. exact A. }
   split; [rewrite D', D; reflexivity|]. split; [rewrite W', W; reflexivity|].
   split; [auto|]. split; [auto|]. split; [auto|].
-  apply (ysim_reported (logs_of (y_sim y)) (length (m_objs (y_mdl y)))); auto.
+  apply (ysim_reported (y_pre y) pre' (logs_of (y_sim y)) (length (m_objs (y_mdl y)))); auto.
   rewrite LB in Rm. exact Rm.
 Qed.
 
 (* EVENT-ID RENAMING for the composed model *)
-Definition ren_y (f : Z -> Z) (n' : Z) (y : ysim) : ysim := with_sim y (ren_sim f n' (y_sim y)).
+Definition ren_y (f : Z -> Z) (n' : Z) (y : ysim) : ysim :=
+  mkY (ren_sim f n' (y_sim y)) (y_subm y) (y_str y) (y_ser y) (y_dlv y) (y_drw y) (y_mdl y)
+      (map f (y_pre y)) (y_pdone y).
 
 Lemma shift_map_0 m : shift_map 0 m = m.
 Proof.
@@ -902,7 +951,7 @@ Proof.
 Qed.
 
 Theorem y_run_id_monotone_invariant f n' y fuel hf h :
-  (forall a, In a (dom (y_sim y)) -> a < nid (y_sim y)) -> MonoOn f n' (y_sim y) ->
+  (forall a, In a (domx (y_pre y) (y_sim y)) -> a < nid (y_sim y)) -> MonoOnX (y_pre y) f n' (y_sim y) ->
   let ra := y_hist nint fuel hf y h in
   let rb := y_hist nint fuel hf (ren_y f n' y) h in
   let ya := fst (fst ra) in let yb := fst (fst rb) in
@@ -914,17 +963,18 @@ Theorem y_run_id_monotone_invariant f n' y fuel hf h :
 Proof.
   intros Lo Mo. cbv zeta.
   set (s := y_sim y).
-  set (B := mkYB (logs_of s) (logs_of s) (y_dlv y) (y_dlv y) (y_drw y) (y_drw y) 0).
+  set (B := mkYB (logs_of s) (logs_of s) (y_dlv y) (y_dlv y) (y_drw y) (y_drw y) 0 (y_pre y) (map f (y_pre y))).
   assert (BL : (length (l_ob (yb_t B)) <= length (l_ob (yb_s B)))%nat) by (cbn; lia).
   assert (LB : yb_L B = 0%nat) by (unfold yb_L, B; cbn; lia).
   assert (Y0 : YSim B y (ren_y f n' y)).
-  { split; [apply ren_sim_idsim; auto|]. constructor; try reflexivity.
+  { split; [apply ren_sim_idsimx; auto|]. constructor; try reflexivity.
     - exists []. auto.
     - exists []. auto.
-    - rewrite LB. apply mdlrel_0. }
+    - rewrite LB. apply mdlrel_0.
+    - split; reflexivity. }
   destruct (y_hist_ysim nint B BL fuel hf h _ _ Y0) as (Y & E & E').
   destruct Y as [H Rr]. split; auto. split; auto.
-  destruct Rr as [R1 R2 R3 [nd [D D']] [nw [W W']] Rm].
+  destruct Rr as [R1 R2 R3 [nd [D D']] [nw [W W']] Rm Rp Rd].
   cbn [yb_ds yb_dt yb_ws yb_wt B] in *.
   assert (EL : logs_of (y_sim (fst (fst (y_hist nint fuel hf (ren_y f n' y) h))))
                = logs_of (y_sim (fst (fst (y_hist nint fuel hf y h))))).
